@@ -362,3 +362,116 @@ var _ uuid.UUID
 //@ invariant [range] 0 - 1 <= rangeindex && rangeindex + 1 <= len(this.partitions)
 //@ loop 2
 //@ invariant [handled] handled == len(this.partitions) && gotErr == 0
+
+// ---------------------------------------------------------------------------------------------
+// C09: dataset search = fan-out to one worker per node, fan-in of exactly one real message per worker
+
+//@ spec sortedScores(s index.SearchResult) bool = forall a int, b int :: 0 <= a && a < b && b < len(s) ==> !(s[b].Score < s[a].Score)
+
+// sort.Sort (dependency, assumed), as used on index.SearchResult: sorts in place with respect to Less (Score <)
+//@ func sort.Sort
+//@ props C09 C01
+//@ assume
+//@ ensures [sorted] sortedScores(data.(index.SearchResult))
+//@ modifies mem(data.(index.SearchResult))
+
+//@ func context.WithCancel
+//@ props C09 C11 C03
+//@ assume
+//@ ensures [ctx] !isnil(ctx) && cancel != nil
+//@ modifies nothing
+
+// calling a context.CancelFunc touches nothing the properties talk about
+//@ func functype:context.CancelFunc
+//@ props C09 C11 C03 C14
+//@ assume
+//@ modifies nothing
+
+//@ func context.WithTimeout
+//@ props C09 C11 C03 C14
+//@ assume
+//@ ensures [ctx] !isnil(ret0) && ret1 != nil
+//@ modifies nothing
+
+//@ func (*storage.Dataset).getSearchQueryNodes
+//@ props C09
+//@ assume
+//@ ensures [map] ret != nil
+//@ modifies nothing
+
+//@ func iface:protobuf.SearchClient.SearchPartitions
+//@ props C09
+//@ assume
+//@ ensures [stream-xor-error] isnil(ret1) ==> !isnil(ret0)
+//@ modifies nothing
+
+//@ func iface:protobuf.Search_SearchPartitionsClient.Recv
+//@ props C09
+//@ assume
+//@ ensures [item-xor-error] isnil(ret1) ==> ret0 != nil
+//@ modifies nothing
+
+// worker on a remote node: exactly one message, on exactly one channel; error messages are non-nil
+//@ func (*storage.Dataset).searchPartitionsOnNode
+//@ props C09
+//@ safety C12
+//@ ghost sentR int = 0
+//@ ghost sentE int = 0
+//@ at send param:resultCh
+//@ set sentR = sentR + 1
+//@ end
+//@ at send param:errorCh
+//@ requires [error-nonnil] !isnil($val)
+//@ set sentE = sentE + 1
+//@ end
+//@ noclose resultCh errorCh
+//@ requires [wf] this.meta != nil && wg != nil
+//@ ensures [one-message] sentR + sentE == 1
+//@ modifies *
+//@ loop 1
+//@ invariant [none-yet] sentR == 0 && sentE == 0
+//@ loop 2
+//@ invariant [none-yet] sentR == 0 && sentE == 0
+
+//@ func (*storage.Dataset).searchPartition
+//@ props C09
+//@ safety C12
+//@ ghost sentR int = 0
+//@ ghost sentE int = 0
+//@ at send param:resultCh
+//@ set sentR = sentR + 1
+//@ end
+//@ at send param:errorCh
+//@ requires [error-nonnil] !isnil($val)
+//@ set sentE = sentE + 1
+//@ end
+//@ noclose resultCh errorCh
+//@ ensures [one-message] sentR + sentE == 1
+//@ modifies *
+
+// collector: spawned workers == real messages consumed, or an error is returned; result ascending and at most k
+//@ func (*storage.Dataset).Search
+//@ props C09
+//@ safety C12
+//@ ghost spawned int = 0
+//@ ghost real int = 0
+//@ at go searchPartitionsOnNode
+//@ set spawned = spawned + 1
+//@ end
+//@ at recv local:resultCh
+//@ set real = real + ite($ok, 1, 0)
+//@ end
+//@ at recv local:errorCh
+//@ assume [protocol: workers send only non-nil errors] $ok ==> !isnil($recv)
+//@ end
+//@ noclose resultCh errorCh
+//@ requires [wf] wfDataset(this) && !isnil(ctx)
+//@ ensures [all-consulted] isnil(ret1) ==> real == spawned
+//@ ensures [never-nil-nil] isnil(ret1) ==> !isnil(ret0)
+//@ ensures [atmostk] isnil(ret1) ==> len(ret0) <= k
+//@ ensures [ascending] isnil(ret1) ==> sortedScores(ret0)
+//@ modifies *
+//@ loop 1
+//@ invariant [spawned] spawned == $count && real == 0
+//@ loop 2
+//@ invariant [consumed] real == i && 0 <= i && spawned == len(nodePartitions) && fresh(result)
